@@ -241,6 +241,10 @@ def note_signature(n):
         sig["keys"] = sorted(ex["keys"])
     if "frame" in ex:
         sig["type"] = ex["frame"][0] >> 4 if ex["frame"] else -1
+        sig["frame"] = ex["frame"]
+    for k in ("list", "first", "wf", "wfErr", "hs", "sites"):
+        if k in ex:
+            sig[k] = ex[k]
     return sig
 
 
